@@ -107,9 +107,16 @@ impl<'h> FindMatchesImpl<'h> {
         let mut mode_switch = false;
         let mut new_mode = 0;
         for _ in 0..n {
-            let result = self
-                .scanner_impl
-                .peek_from(&self.input[self.offset..], char_indices.clone());
+            let mut result;
+            loop {
+                result = self
+                    .scanner_impl
+                    .peek_from(&self.input[self.offset..], char_indices.clone());
+                // Skip characters that can't be matched, like `next_match` does.
+                if result.is_some() || char_indices.next().is_none() {
+                    break;
+                }
+            }
             if let Some(mut matched) = result {
                 let token_type = matched.token_type();
                 Self::advance_char_indices_beyond_match(&mut char_indices, matched);
